@@ -181,7 +181,7 @@ def run(tier, seed):
     r.bounds = {"tier": tier}
     r.assumptions = ["nested layout judged only for tree-shaped model graphs (others executed, recorded as unjudged_nontree)",
                      "sqlmodel loaded against stubs/sqlmodel"]
-    budget = 55 if tier == "quick" else 1200
+    budget = 240 if tier == "quick" else 1500
     for case, res in core.pmap(execute, _cases(tier), chunksize=16, budget_s=budget):
         r.add(case, res)
     if core.pmap.capped:
